@@ -12,6 +12,24 @@
 #include <string>
 #include "celma/appl/arg_string_2_array.hpp"
 #include "celma/prog_args.hpp"
+#if CV_KIND == 2
+// std::bitset destination: argv: value  -- the position text handed to TypedArg< std::bitset< N>>::assign (any integer, also negative);
+// the bitset has max(CV_N, 200) bits in a heap block of its own so that a wild word index faults
+#include <bitset>
+int main(int argc, char** argv) {
+  if (argc < 2) return 2;
+  typedef std::bitset<(CV_N > 200 ? CV_N : 200)> bs_t;
+  bs_t& bits = *new bs_t;
+  celma::prog_args::Handler ah(0);
+  ah.addArgument("a,array", DEST_VAR(bits), "values");
+  std::string line = std::string("--array=") + argv[1];
+  auto const as2a = celma::appl::make_arg_array(line, nullptr);
+  try { ah.evalArguments(as2a.mArgC, as2a.mpArgV); printf("accepted: %s\n", line.c_str()); }
+  catch (const std::exception& e) { printf("rejected with std::exception: %s\n", line.c_str()); }
+  printf("NOT-REPRODUCED: real code stays inside the destination on this input\n");
+  return 0;
+}
+#else
 int main(int argc, char** argv) {
   if (argc < 3) return 2;
   size_t index = strtoull(argv[1], 0, 10); int first = atoi(argv[2]);
@@ -36,3 +54,4 @@ int main(int argc, char** argv) {
   printf("NOT-REPRODUCED: real code stays inside the destination on this input\n");
   return 0;
 }
+#endif
